@@ -11,7 +11,7 @@ from collections import Counter
 
 from ..simkit import gen
 from ..simkit.backends import BackendFault, classes
-from ..simkit.core import call, judge
+from ..simkit.core import call, judge, clear_library_caches
 from ..simkit.simrng import POLICIES, SimRNG
 
 PID = "C13"
@@ -28,6 +28,7 @@ class ForeignCircuit(list):
 
 class World:
     PID = PID
+    WATCHDOG_S = 60  # a run of this world takes well under a second; beyond this it is a hang
     TIERS = {
         "quick": {"runs": 4000, "budget_s": 50, "determinism_seeds": 8, "chunk": 50},
         "thorough": {"runs": 300000, "budget_s": 900, "determinism_seeds": 200, "chunk": 300},
@@ -143,8 +144,7 @@ class World:
 
         ShotBackend, _, _ = classes()
         cfg = plan["config"]
-        umod.bitstring_to_tuple.cache_clear()
-        umod.tuple_to_bitstring.cache_clear()
+        clear_library_caches()
         rng = SimRNG(cfg["rng_mode"], cfg["rng_policy"], ctx.probes).install()
         if cfg["rng_mode"] == "adversarial":
             ctx.probe("adversarial-rng")
